@@ -66,7 +66,7 @@ REDIS_THEOREMS = {
             "truncated_score_early_witness"],
     "C12": ["redis_no_expired_delivery", "nack_dead_letters_own_priority", "dead_letters_retrievable"],
     "C14": ["redis_take_race_witness", "redis_take_removes_partial", "take_marks_processing"],
-    "C15": ["fetchList_oldest", "redis_fifo", "enqueue_does_not_overtake", "returned_is_next"],
+    "C15": ["prefetch_pos", "fetchList_oldest", "redis_fifo", "enqueue_does_not_overtake", "returned_is_next"],
 }
 
 
